@@ -100,6 +100,48 @@ func TestGovcReplay(t *testing.T) {
 			msgs = append(msgs, "removeReplicaLabels removed the non-replica label a")
 		}
 	}
+	// the filter over whole groups: a group keeps exactly the rules the oracle selects, in order, and
+	// a group is dropped only when none of its rules is selected
+	mkRule := func(name string, l labels.Labels) *rulespb.Rule {
+		return &rulespb.Rule{Result: &rulespb.Rule_Alert{Alert: &rulespb.Alert{Name: name, Labels: labelpb.ZLabelSet{Labels: labelpb.ZLabelsFromPromLabels(l)}}}}
+	}
+	for i := range sets {
+		if sets[i] == nil {
+			continue
+		}
+		ss := [][]*labels.Matcher{sets[i]}
+		var groups []*rulespb.RuleGroup
+		var want [][]string
+		for gi := 0; gi < 3; gi++ {
+			g := &rulespb.RuleGroup{Name: fmt.Sprintf("g%d", gi)}
+			var keep []string
+			for ri, lc := range lcases {
+				if (ri+gi)%3 == 2 {
+					continue
+				}
+				name := fmt.Sprintf("g%d-r%d", gi, ri)
+				g.Rules = append(g.Rules, mkRule(name, lc.l))
+				if govcOracle(ss, lc.nt) {
+					keep = append(keep, name)
+				}
+			}
+			groups = append(groups, g)
+			if len(keep) > 0 {
+				want = append(want, keep)
+			}
+		}
+		var got [][]string
+		for _, g := range filterRulesByMatchers(groups, ss) {
+			var names []string
+			for _, r := range g.Rules {
+				names = append(names, r.GetAlert().Name)
+			}
+			got = append(got, names)
+		}
+		if fmt.Sprint(got) != fmt.Sprint(want) && len(msgs) < 4 {
+			msgs = append(msgs, fmt.Sprintf("filterRulesByMatchers with matcher set %v keeps %v, Prometheus semantics selects %v (rules without labels count as having every label empty)", sets[i], got, want))
+		}
+	}
 	if len(msgs) > 0 {
 		fmt.Println("REPLAY: reproduced:", strings.Join(msgs, "; "))
 		t.Fail()
